@@ -17,6 +17,8 @@ CONSTANTS
   HU0R <- HU0RAll
   HSCALES <- HScalesAll
   MTOUCHES <- MTouchNone
+  MFAILS <- MFailNone
+  GFAILS <- MFailNone
   HLEN = 2
   PHASEDICTS <- PhaseDictsMapT
   NVER = 3
